@@ -132,12 +132,21 @@ class EnsembleEvaluator:
         self._cache_for_gradient = None
         return self._calculate_both(variables, self._config.variables.mask)
 
+    def _get_active_for_functions(
+        self,
+    ) -> tuple[NDArray[np.bool_] | None, NDArray[np.bool_] | None]:
+        # Realization filters rank the function values of all realizations,
+        # also of those with a configured weight of zero, so all are needed:
+        if self._realization_filters:
+            return None, None
+        return _get_active_realizations(self._config)
+
     def _calculate_functions(
         self, variables: NDArray[np.float64]
     ) -> tuple[FunctionResults, ...]:
         if variables.ndim == 1:
             variables = variables[np.newaxis, :]
-        active_objectives, active_constraints = _get_active_realizations(self._config)
+        active_objectives, active_constraints = self._get_active_for_functions()
         function_results = tuple(
             self._calculate_one_set_of_functions(f_eval_results, variables[idx, :])
             for idx, f_eval_results in _get_function_results(
@@ -299,7 +308,7 @@ class EnsembleEvaluator:
         perturbed_variables = _perturb_variables(
             self._config, variables, self._samplers
         )
-        active_objectives, active_constraints = _get_active_realizations(self._config)
+        active_objectives, active_constraints = self._get_active_for_functions()
         f_eval_results, g_eval_results = _get_function_and_gradient_results(
             self._config,
             self._transforms,
